@@ -7,6 +7,7 @@ import Proofs.C20
 import Generated.Tables
 import Generated.Vocab
 import Generated.Options
+import Generated.Sites
 
 namespace MongoModel.Proofs.C20
 open MongoModel.Vocab
@@ -45,6 +46,37 @@ theorem rows_known :
 /-- the full statement fails on the table: some entry is observed `ignored` -/
 theorem some_entry_ignored :
     Generated.vocab.any (fun e => decide (e.disp = .ignored)) = true := by
+  decide +kernel
+
+/-! ### consumer sites of the shared dispatchers -/
+
+/-- every site row: class = classification, observed = modelled for the dispatcher, or raises -/
+theorem site_rows_ok_chunks :
+    Generated.siteRowChunks.all (fun c => c.all (SiteRow.ok Generated.tables)) = true := by
+  decide +kernel
+
+theorem site_rows_ok : Generated.siteRows.all (SiteRow.ok Generated.tables) = true :=
+  chunks_all _ _ site_rows_ok_chunks
+
+/-- every `ignored` observed at a site is a listed known finding -/
+theorem site_rows_known_chunks :
+    Generated.siteRowChunks.all (fun c => c.all
+      (SiteRow.ignoredKnown Generated.knownIgnoredSitePairs)) = true := by
+  decide +kernel
+
+theorem site_rows_known :
+    Generated.siteRows.all (SiteRow.ignoredKnown Generated.knownIgnoredSitePairs) = true :=
+  chunks_all _ _ site_rows_known_chunks
+
+/-- every call of a dispatch helper in the source is reached by a probed site, and every site
+    was probed with names the dispatcher refuses -/
+theorem call_sites_covered :
+    callSitesCovered Generated.callSites Generated.sites = true := by
+  decide +kernel
+
+theorem every_site_has_a_refusal :
+    (List.range Generated.sites.length).all (fun i =>
+      Generated.siteVocab.any (fun e => e.site == i && e.disp.raises)) = true := by
   decide +kernel
 
 /-! ### options -/
